@@ -31,7 +31,8 @@ Check(r) ==
               ELSE IF Len(ws) < Len(r.locs) THEN
                    (* the string entry points have the whole text: every located place must show its line *)
                    (* (an empty text has no line to show) *)
-                   (IF r.entry # "reader" /\ r.text # <<>> /\ \A k \in 1..Len(r.locs) : r.locs[k].line <= Len(ls) /\ r.locs[k].col <= Len(ls[r.locs[k].line]) + 1
+                   (* (so has the reader while the whole text fits its window of recent bytes: 500 code points are at most 2000 of its 3072 bytes) *)
+                   (IF (r.entry # "reader" \/ (Len(r.text) <= 500 /\ ~r.validation)) /\ r.text # <<>> /\ \A k \in 1..Len(r.locs) : r.locs[k].line <= Len(ls) /\ r.locs[k].col <= Len(ls[r.locs[k].line]) + 1
                     THEN (IF HasLoneCR(r.text) THEN "lone-cr:" ELSE "") \o "no-snippet-for-a-located-error" ELSE "ok")
               ELSE LET vs == [k \in 1..Len(ws) |->
                                  LET w == SubSeq(r.out, ws[k], WinEnd(r.out, ws[k])) IN
